@@ -20,6 +20,11 @@
    best symbol of every frame is unique - a tie may be broken differently after round-off), 5 the confident-line test gives the
    same answer for the shifted logits at thresholds strictly between attainable values, 6 it is monotone in the threshold,
    7 one-hot posteriors give 1 within 1e-9, 8 the bag confidence equals the largest normalised posterior within 1e-9.
+   One-hot clause 7: OneHotForOf(w, labels, al) (Confidence.tla) = every row one-hot and the hot symbols spell the transcription
+   along a CTC path WITH RUNS (a,a,a,a,b for "ab"; al[i] = any frame of the run of character i) - TLC decides it from the
+   recorded matrix.  For matrices with one-hot rows the trace also carries auto / lc_auto / al_auto / over_auto / one_auto: the
+   same question with the alignment the code finds itself (no alignment passed; align_text + own log-posteriors as the ALTO export
+   does), both renderings; one_auto = largest 1 - value, over_auto = excursion outside [0, 1] (1e-12).
    kind = "hist" (HISTORY): the confidences of the design module are functions of the current matrix only (no variable of
    Confidence remembers an earlier matrix), so a line that is handed new logits must answer for the new logits.  ONE long-lived
    page / line / PageDecoder set of the real code goes through  w + constants -> steps[1].w -> (a call that may fail) ->
@@ -57,6 +62,12 @@ JudgeLine ==
     ELSE IF \E j \in 1..(Len(Tr.sys) - 1) : (Tr.sys[j + 1] /\ ~Tr.sys[j]) \/ (Tr.sys_s[j + 1] /\ ~Tr.sys_s[j]) THEN 6
     ELSE IF OneHot(w) /\ (Tr.one_cmp > TOL \/ \E k \in 0..(2 * D - 1) : ~Tr.lce[k + 1]) THEN 7
     ELSE IF OneHotForOf(w, labels, al) /\ Tr.one > TOL THEN 7
+    \* ... and with the alignment the code finds itself (auto: get_line_confidence without an alignment, and with the alignment /
+    \* log-posteriors the exports compute with align_text; "none" = not asked): whether the one-hot matrix spells the
+    \* transcription does not depend on which frame of its run a character is aligned to, so OneHotForOf(w, labels, al) decides it
+    ELSE IF OneHotForOf(w, labels, al) /\ Tr.auto \notin {"ok", "none"} THEN 1
+    ELSE IF Tr.auto = "ok" /\ Tr.over_auto > TOL THEN 2
+    ELSE IF OneHotForOf(w, labels, al) /\ Tr.auto = "ok" /\ Tr.one_auto > TOL THEN 7
     ELSE IF ~Strict THEN 0
     ELSE IF \E i \in 1..L : ~ApproxQ(Tr.lc[i], LineExact(i)) \/ ~ApproxQ(Tr.lc_s[i], LineExact(i)) THEN 11
     ELSE IF \E i \in 1..L : ~ApproxQ(Tr.let[i], LetterConfOf(w, den, labels, al, i)) THEN 12
